@@ -2,6 +2,7 @@ package kvql
 
 import (
 	"encoding/json"
+	"math"
 	"strconv"
 	"strings"
 
@@ -327,6 +328,9 @@ func newAggrQuantileFunc(args []Expression) (AggrFunction, error) {
 	percent, ok := convertToFloat(pvar)
 	if !ok {
 		return nil, NewExecuteError(args[1].GetPos(), "quantile function second parameter type should be float")
+	}
+	if math.IsNaN(percent) {
+		return nil, NewExecuteError(args[1].GetPos(), "quantile function second parameter type should not be NaN")
 	}
 	if percent > 1.0 {
 		return nil, NewExecuteError(args[1].GetPos(), "quantile function second parameter type should be less than 1")
